@@ -788,6 +788,11 @@ func (c *Canary) send(state *State, payload []byte, flags tcp.Flag) error {
 
 	}
 
+	if ae == nil {
+		// neither the peer nor a gateway towards it is in the ARP cache
+		return fmt.Errorf("no ARP entry for %s", dst)
+	}
+
 	ef := ethernet.Frame{
 		Source:      c.networkInterfaces[0].HardwareAddr,
 		Destination: ae.HardwareAddress,
